@@ -86,6 +86,12 @@ def monitor(case):
         if kind == 'KDataReady' and g['data'] != data:
             return ('read %s returned %s; the flat byte array in arrival order holds %s'
                     % (k, g['data'], data))
+    # sleep safety (dram_sleep_safe / dram_quiet_stays_quiet): a tick that reported no progress changed
+    # nothing, so the next tick - nothing delivered, retrieved or probed in between - reports none either
+    for i in range(len(ev) - 1):
+        if ev[i]['e'] == 'tick' and ev[i].get('progress') is False and ev[i + 1]['e'] == 'tick' and ev[i + 1].get('progress'):
+            return ('tick %d reported no progress but the directly following tick %d did: a tick without progress '
+                    'changed the state (the engine would have put the memory to sleep)' % (i, i + 1))
     # the storage object itself (Comp.Storage / the object given to WithStorage) holds the flat array
     if not hostile and not cfg.get('aconv'):
         for e in ev:
@@ -296,6 +302,9 @@ def main(argv):
         'refused_deliveries': sum(1 for c in cases for e in c['events'] if e['e'] == 'd' and e.get('acc') is False),
         'crashed_cases': sum(1 for c in cases if any(e.get('crash') for e in c['events'])),
         'hostile_cases': sum(1 for c in cases if c.get('hostile')),
+        'consecutive_tick_pairs': sum(1 for c in cases for a, b in zip(c['events'], c['events'][1:]) if a['e'] == 'tick' and b['e'] == 'tick'),
+        'quiet_tick_followed_by_tick': sum(1 for c in cases for a, b in zip(c['events'], c['events'][1:])
+                                           if a['e'] == 'tick' and b['e'] == 'tick' and a.get('progress') is False),
         'bank_counts': dict(sorted(collections.Counter(c['cfg']['banks'] for c in cases).items())),
         'capacity_not_multiple_of_stripe': sum(1 for c in cases if c['cfg']['capacity'] % (c['cfg']['banks'] << c['cfg']['log2ilv'])),
         'requests_in_last_stripe_of_capacity': sum(1 for c in cases if not c.get('hostile') for e in c['events'] if e['e'] == 'd' and e.get('acc')
